@@ -25,12 +25,16 @@ SCALAR READING.  Every tensor-valued parameter / `self` attribute listed in SPEC
 an optional one (kind "optR": Python default None, Coq `option R`), or a pair of reals (kind "vec2":
 `misalignment`, indexed `m[..., 0]`, `m[..., 1]`).  A 7x7 tensor is `M7 R`.  Batch dimensions do not exist.
   statements
-    x = e                      let x := e in ..            (every Coq binder is fresh: a re-bound Python name x becomes
+    x = e  /  x: T = e         let x := e in ..            (every Coq binder is fresh: a re-bound Python name x becomes
                                                             x_1, x_2..; a name that clashes with an emitted Coq
                                                             identifier gets a trailing `_`; `_` binds nothing)
     a, b, c = e                let '(a, b, c) := e in ..   (e a tuple of the same length, else failure)
     M[..., i, j] = e           M becomes  mset i j e M     (i, j literal integers in 0..6; M a 7x7 value)
     x[c] = e                   x becomes  if c then e else x    (masked write; c a condition, see below)
+                               Both in-place forms are accepted only on a tensor CREATED in the function (x.clone(),
+                               torch.eye(..).repeat(..), an arithmetic/call result) that no other name aliases: a
+                               write into a parameter / self attribute (it would change the caller's tensor, e.g. after
+                               dropping `.clone()`), or into a tensor bound to two names, fails.
     if c: A else: B ; rest     if c then [A; rest] else [B; rest]   (the continuation is duplicated; a branch may return)
     return e                   e  (a tuple of names/expressions becomes a Coq tuple)
     assert c, "msg"            contributes `c` to the separate definition gen_<f>_pre : Prop; no effect on the value
@@ -39,7 +43,8 @@ an optional one (kind "optR": Python default None, Coq `option R`), or a pair of
     X.device, X.dtype, X.shape, X.shape[:-1] (X a scalar/vec2 value), torch.broadcast_shapes(Meta..),
     {"device": Meta, "dtype": Meta}, verify_device_and_dtype([names..], device, dtype),
     torch.eye(7, device=Meta, dtype=Meta | **Meta)[.repeat(*Meta, 1, 1) | .repeat((*Meta, 1, 1))]   = rI  (identity 7x7)
-    torch.broadcast_tensors(a, b, ..) = (a, b, ..);  x.clone() = x;  c.unsqueeze(-1) = c (c a condition);
+    torch.broadcast_tensors(a, b, ..) = (a, b, ..) (views: not writable);  x.clone() = x as a NEW tensor;
+    c.unsqueeze(-1) = c (c a condition);
     torch.tensor(<number literal>, device=.., dtype=.. | **Meta) = that number;  torch.as_tensor(x, ..) = x;
     torch.zeros_like(x) = 0
   expressions over R
@@ -79,7 +84,9 @@ NOT covered (stated so that nobody assumes otherwise): float rounding; broadcast
 that stores constructor arguments into `self` attributes (Dipole.__init__ storing dipole_e1 as self._e1, buffers,
 nn.Module); dispatch in `track`; anything outside the listed functions.  Names are checked to be bound exactly once
 in their module/class and to be imported from the expected module, so that shadowing a translated function or
-attribute by another definition in the same file fails.
+attribute by another definition in the same file fails; element classes must derive from `Element` only (RBend from
+`Dipole` only, without redefining the translated Dipole methods); translated functions carry no decorators
+(`Dipole.hx`: exactly `@property`).
 """
 import ast
 import hashlib
@@ -137,6 +144,8 @@ SPECS = [
 # where a global name used inside a translated function may come from
 ORIGINS = {
     "torch": [("import", "torch")],
+    "Element": [("from", "cheetah.accelerator.element")],
+    "Dipole": [("from", "cheetah.accelerator.dipole")],
     "compute_relativistic_factors": [("from", "cheetah.utils"), ("from", "cheetah.utils.physics"), ("def", PH)],
     "rotation_matrix": [("from", "cheetah.track_methods"), ("def", TM)],
     "base_rmatrix": [("from", "cheetah.track_methods"), ("def", TM)],
@@ -151,7 +160,7 @@ M_E_IDIOM = ast.dump(ast.parse('physical_constants["electron mass energy equival
 COQ_KEYWORDS = {"as", "at", "cofix", "else", "end", "exists", "exists2", "fix", "for", "forall", "fun", "if", "IF", "in", "let",
                 "match", "mod", "Prop", "return", "Set", "then", "Type", "using", "where", "with", "SProp"}
 EMITTED = {"R", "M7", "cos", "sin", "tan", "sqrt", "ln", "PI", "rI", "rmmul", "mset", "Cf", "Sf", "m_e", "c_light", "deg2rad",
-           "Req_EM_T", "Rlt_dec", "Rle_dec", "Some", "None", "option", "True", "False", "v__", "pow", "nat"}
+           "Req_EM_T", "Rlt_dec", "Rle_dec", "Some", "None", "option", "True", "False", "pow", "nat"}
 NUM_RE = re.compile(r"^(\d+\.?\d*|\.\d+)([eE][+-]?\d+)?$")
 
 
@@ -160,11 +169,19 @@ class V:
     kind = "?"
 
 
-class Sc(V):            # real-valued Coq term
-    kind = "R"
+_TID = [0]
 
-    def __init__(self, t):
-        self.t = t
+
+def new_tid():
+    _TID[0] += 1
+    return _TID[0]
+
+
+class Sc(V):            # real-valued Coq term; tid = identity of the tensor object, owned = created inside the function
+    kind = "R"          # (in-place writes are only accepted on owned, un-aliased tensors)
+
+    def __init__(self, t, owned=True, tid=None):
+        self.t, self.owned, self.tid = t, owned, tid or new_tid()
 
 
 class Vec(V):           # pair of real-valued Coq terms
@@ -177,8 +194,8 @@ class Vec(V):           # pair of real-valued Coq terms
 class Mx(V):            # 7x7 Coq term
     kind = "M7"
 
-    def __init__(self, t):
-        self.t = t
+    def __init__(self, t, owned=True, tid=None):
+        self.t, self.owned, self.tid = t, owned, tid or new_tid()
 
 
 class Tup(V):
@@ -558,12 +575,13 @@ class FnTr:
             self.fail(n, f"`{t.left.id} is None` test on something that is not an optional parameter ({getattr(v, 'kind', 'unbound')})")
         some_node, none_node = (n.body, n.orelse) if isinstance(t.ops[0], ast.IsNot) else (n.orelse, n.body)
         env_some = dict(env)
-        env_some[t.left.id] = Sc("v__")
+        bn = self.fresh("v__")
+        env_some[t.left.id] = Sc(bn, owned=False)
         env_none = dict(env)
         env_none[t.left.id] = Opaque()
         s = self.sc(self.ev(some_node, env_some), some_node, "not-None branch")
         d = self.sc(self.ev(none_node, env_none), none_node, "None branch")
-        return Sc(f"(match {v.t} with Some v__ => {s} | None => {d} end)")
+        return Sc(f"(match {v.t} with Some {bn} => {s} | None => {d} end)", owned=False)
 
     def e_Subscript(self, n, env):
         v = self.ev(n.value, env)
@@ -571,7 +589,7 @@ class FnTr:
         if isinstance(v, Vec):
             if (isinstance(s, ast.Tuple) and len(s.elts) == 2 and isinstance(s.elts[0], ast.Constant) and s.elts[0].value is Ellipsis
                     and isinstance(s.elts[1], ast.Constant) and isinstance(s.elts[1].value, int) and 0 <= s.elts[1].value < len(v.ts)):
-                return Sc(v.ts[s.elts[1].value])
+                return Sc(v.ts[s.elts[1].value], owned=False)
             self.fail(n, "unsupported index into a vec2 value (only [..., 0] and [..., 1])")
         if isinstance(v, Meta):
             if (isinstance(s, ast.Slice) and s.lower is None and s.step is None and isinstance(s.upper, ast.UnaryOp)
@@ -614,7 +632,7 @@ class FnTr:
         if isinstance(f, ast.Attribute):
             v = self.ev(f.value, env)
             if f.attr == "clone" and isinstance(v, Sc) and not n.args and not n.keywords:
-                return v
+                return Sc(v.t)          # same value, NEW tensor (owned: later in-place writes stay local)
             if f.attr == "unsqueeze" and isinstance(v, Cond) and len(n.args) == 1 and not n.keywords and ast.dump(n.args[0]) in (
                     "UnaryOp(op=USub(), operand=Constant(value=1))",):
                 return v
@@ -722,7 +740,9 @@ class FnTr:
             if len(args) != 1:
                 self.fail(n, "torch.as_tensor takes one positional argument here")
             self.meta_kwargs(n, env)
-            return Sc(self.sc(self.ev(args[0], env), args[0], "argument of torch.as_tensor"))
+            v = self.ev(args[0], env)
+            self.sc(v, args[0], "argument of torch.as_tensor")
+            return v
         if name == "zeros_like":
             if len(args) != 1 or n.keywords:
                 self.fail(n, "torch.zeros_like takes one argument here")
@@ -762,7 +782,7 @@ class FnTr:
         if name == "broadcast_tensors":
             if n.keywords:
                 self.fail(n, "keywords of torch.broadcast_tensors")
-            return Tup([Sc(self.sc(self.ev(a, env), a, "argument of torch.broadcast_tensors")) for a in args])
+            return Tup([Sc(self.sc(self.ev(a, env), a, "argument of torch.broadcast_tensors"), owned=False) for a in args])
         if name == "matmul":
             if len(args) != 2 or n.keywords:
                 self.fail(n, "torch.matmul takes two arguments")
@@ -791,7 +811,7 @@ class FnTr:
                 return "", env
             if isinstance(v, (Sc, Mx)):
                 nm = self.fresh(target.id)
-                env[target.id] = type(v)(nm)
+                env[target.id] = type(v)(nm, v.owned, v.tid)
                 return f"let {nm} := {v.t} in\n  ", env
             if isinstance(v, Vec):
                 self.fail(node, "assignment of a vec2 value")
@@ -809,19 +829,22 @@ class FnTr:
                 kinds = tuple(x.kind for x in v.vs)
                 if not all(isinstance(x, (Sc, Mx)) for x in v.vs):
                     self.fail(node, f"tuple assignment of {kinds}")
+                owned = [x.owned for x in v.vs]
                 v = TupT("(" + ", ".join(x.t for x in v.vs) + ")", kinds)
+                v.owned = owned
             if isinstance(v, TupT):
                 if len(v.kinds) != len(target.elts):
                     self.fail(node, f"tuple assignment: {len(target.elts)} targets for {len(v.kinds)} values")
                 pats = []
-                for t, k in zip(target.elts, v.kinds):
+                flags = getattr(v, "owned", [True] * len(v.kinds))
+                for (t, k), ow in zip(zip(target.elts, v.kinds), flags):
                     if not isinstance(t, ast.Name):
                         self.fail(node, "unsupported assignment target")
                     if t.id == "_":
                         pats.append("_")
                         continue
                     nm = self.fresh(t.id)
-                    env[t.id] = Sc(nm) if k == "R" else Mx(nm)
+                    env[t.id] = Sc(nm, owned=ow) if k == "R" else Mx(nm, owned=ow)
                     pats.append(nm)
                 return f"let '({', '.join(pats)}) := {v.t} in\n  ", env
             self.fail(node, f"tuple assignment of a {v.kind} value")
@@ -868,6 +891,12 @@ class FnTr:
                 self.fail(s, "assert message must be a string literal")
             r = self.block(rest, env, cont)
             return f"({propc(c)} /\\ {r})" if self.mode == "pre" else r
+        if isinstance(s, ast.AnnAssign):
+            # `x: T = e` is `x = e` (the annotation has no run-time effect on a local)
+            if s.value is None or not s.simple or not isinstance(s.target, ast.Name):
+                self.fail(s, "annotated assignment without value / to a non-name")
+            pre, env2 = self.bind(s.target, self.ev(s.value, env), env, s)
+            return pre + self.block(rest, env2, cont)
         if isinstance(s, ast.Assign):
             if len(s.targets) != 1:
                 self.fail(s, "chained assignment")
@@ -887,7 +916,7 @@ class FnTr:
                 if isinstance(env[nm], Mx) and env[nm].t.startswith("(mset "):
                     c_nm = self.fresh(nm)
                     pre += f"let {c_nm} := {env[nm].t} in\n  "
-                    env[nm] = Mx(c_nm)
+                    env[nm] = Mx(c_nm, env[nm].owned, env[nm].tid)
             k = (lambda e: self.block(rest, e, cont))
             if not rest and cont is None:
                 k = None
@@ -903,19 +932,25 @@ class FnTr:
         cur = env[name]
         sl = tg.slice
         env = dict(env)
+        if isinstance(cur, (Sc, Mx)):
+            if not cur.owned:
+                self.fail(s, f"in-place write into {name!r}, a tensor that was not created in this function (it would modify the caller's/element's tensor)")
+            holders = [k for k, v in env.items() if isinstance(v, (Sc, Mx)) and v.tid == cur.tid]
+            if holders != [name]:
+                self.fail(s, f"in-place write into {name!r}, which is aliased by {sorted(set(holders) - {name})}")
         if isinstance(cur, Mx):
             if not (isinstance(sl, ast.Tuple) and len(sl.elts) == 3 and isinstance(sl.elts[0], ast.Constant) and sl.elts[0].value is Ellipsis
                     and all(isinstance(e, ast.Constant) and isinstance(e.value, int) and not isinstance(e.value, bool) and 0 <= e.value <= 6 for e in sl.elts[1:])):
                 self.fail(s, "matrix entry assignment must have the form M[..., i, j] = e with literal 0 <= i, j <= 6")
             i, j = sl.elts[1].value, sl.elts[2].value
             e = self.sc(self.ev(s.value, env), s.value, "assigned matrix entry")
-            env[name] = Mx(f"(mset {i} {j} {e} {cur.t})")
+            env[name] = Mx(f"(mset {i} {j} {e} {cur.t})", True, cur.tid)
             return self.block(rest, env, cont)
         if isinstance(cur, Sc):
             c = self.cond(self.ev(sl, env), sl)
             e = self.sc(self.ev(s.value, env), s.value, "value of a masked write")
             nm = self.fresh(name)
-            env[name] = Sc(nm)
+            env[name] = Sc(nm, True, cur.tid)
             return f"let {nm} := {ifc(c, e, cur.t)} in\n  " + self.block(rest, env, cont)
         self.fail(s, f"subscript assignment into a {cur.kind} value")
 
@@ -924,6 +959,10 @@ class FnTr:
         spec, mod = self.spec, self.mod
         cnode, f, cb = mod.find_function(spec["cls"], spec["fn"], spec.get("prop", False))
         self.fnode, self.class_bind = f, (cb if spec["cls"] else {})
+        if spec["cls"] and not spec.get("super_init"):
+            if [ast.dump(b) for b in cnode.bases] != ["Name(id='Element', ctx=Load())"] or cnode.keywords:
+                mod.fail(cnode, f"class {spec['cls']} must derive from Element only")
+            mod.global_origin("Element", cnode)
         a = f.args
         if a.vararg or a.kwarg or a.kwonlyargs or a.posonlyargs:
             mod.fail(f, "unsupported parameter syntax")
@@ -945,7 +984,7 @@ class FnTr:
                     coq_params += [(x, "R") for x in ns]
                 else:
                     c = self.fresh(nm)
-                    attrs[nm] = Sc(c)
+                    attrs[nm] = Sc(c, owned=False)
                     coq_params.append((c, "R"))
             env["self"] = attrs
         if len(pos) != len(spec["params"]):
@@ -960,7 +999,7 @@ class FnTr:
                 coq_params += [(x, "R") for x in ns]
             else:
                 c = self.fresh(nm)
-                env[nm] = Opt(c) if kind == "optR" else Sc(c)
+                env[nm] = Opt(c) if kind == "optR" else Sc(c, owned=False)
                 coq_params.append((c, "option R" if kind == "optR" else "R"))
         self.pnames = pos
         body = self.block(f.body, env, None)
@@ -979,8 +1018,9 @@ class FnTr:
 
     def translate_super_init(self, cnode, f, pos, defaults):
         spec, mod = self.spec, self.mod
-        if [ast.dump(b) for b in cnode.bases] != [f"Name(id='{spec['base']}', ctx=Load())"]:
+        if [ast.dump(b) for b in cnode.bases] != [f"Name(id='{spec['base']}', ctx=Load())"] or cnode.keywords:
             mod.fail(cnode, f"{spec['cls']} must derive from {spec['base']} only")
+        mod.global_origin(spec["base"], cnode)
         for nm in spec["must_not_define"]:
             if nm in self.class_bind:
                 mod.fail(self.class_bind[nm][0][2], f"{spec['cls']} redefines {nm!r}: the Dipole transcription no longer applies to it")
